@@ -194,6 +194,16 @@ func (a *archiver) worker(workerID string) {
 	}
 }
 
+// waitForFeedback blocks until the WARC writer has either written the records of the
+// request the channel was attached to, or dropped them (the channel is then closed).
+// It must only be called once the response body has been closed.
+// It is a no-op when WARC writing is asynchronous (nil channel).
+func waitForFeedback(feedbackChan chan struct{}) {
+	if feedbackChan != nil {
+		<-feedbackChan
+	}
+}
+
 func archive(workerID string, seed *models.Item) {
 	logger := log.NewFieldedLogger(&log.Fields{
 		"component": "archiver.archive",
@@ -312,6 +322,10 @@ func archive(workerID string, seed *models.Item) {
 						io.Copy(io.Discard, resp.Body)
 						resp.Body.Close()
 
+						// The response we are retrying on is archived too (unless discarded):
+						// wait for it to be written before going on
+						waitForFeedback(feedbackChan)
+
 						time.Sleep(retrySleepTime)
 						continue
 					} else {
@@ -321,6 +335,10 @@ func archive(workerID string, seed *models.Item) {
 						// Consume body, needed to avoid leaking RAM & storage
 						io.Copy(io.Discard, resp.Body)
 						resp.Body.Close()
+
+						// The last response is archived too (unless discarded): the item must not
+						// leave the archiver before it is written
+						waitForFeedback(feedbackChan)
 
 						return
 					}
@@ -344,6 +362,7 @@ func archive(workerID string, seed *models.Item) {
 			if err != nil {
 				logger.Error("unable to process body", "err", err.Error(), "item_id", item.GetShortID(), "seed_id", seed.GetShortID(), "depth", item.GetDepth(), "hops", item.GetURL().GetHops())
 				item.SetStatus(models.ItemFailed)
+				waitForFeedback(feedbackChan)
 				return
 			}
 
